@@ -67,6 +67,14 @@ Setup ==
                << <<NameQN("ex", A, <<"attr">>), [t |-> "int", v |-> "1"]>> >>),
             NR("b2", "entity", <<NameQN("ex", A, Y)>>, <<>>, <<>>) >>
     [] Scenario \in {"c08", "c08b"} -> SetupWorld
+    [] Scenario = "c08f" ->      \* b1 holds two entity records ex:x and has ALREADY been unified once;
+                                 \* then records are changed through their own API
+         SetupWorld \o
+         << NR("b1", "entity", <<NamePL("ex", X)>>, <<>>, << <<NameQN("ex", A, <<"attr">>), [t |-> "int", v |-> "1"]>> >>),
+            NR("b1", "entity", <<NamePL("ex", X)>>, <<>>, <<>>),
+            NR("b1", "activity", <<NamePL("ex", Y)>>, <<>>, <<>>),
+            NR("b1", "activity", <<NamePL("ex", Y)>>, <<>>, <<>>),
+            [op |-> "Unified", h |-> "b1", out |-> "u0"] >>
     [] Scenario = "c08e" ->      \* the FIRST record of a group leaves a formal argument open; later ones may disagree on it
          SetupWorld \o
          << NR("b1", "generation", <<NamePL("ex", <<"g">>)>>, << <<"entity", Ref(NamePL("ex", X))>> >>, <<>>),
@@ -258,6 +266,13 @@ Menu ==
     [] Scenario = "c09c" -> ActsNewRec \cup {a \in ActsDerive : a.op = "Flattened"} \cup {a \in ActsUpdate : a.h = "d1"}
     [] Scenario = "c09" -> ActsNewRec \cup ActsUpdate \cup ActsAddBundle \cup ActsBundle
                            \cup {a \in ActsDerive : a.op = "Flattened"}
+    [] Scenario = "c08f" ->
+         { [op |-> "AddAttrs", r |-> [c |-> "b1", i |-> i], form |-> "pairs",
+            pairs |-> << <<NameQN("ex", A, <<"attr">>), [t |-> "int", v |-> "7"]>> >>] : i \in {1, 2} }
+         \cup { [op |-> "SetTime", r |-> [c |-> "b1", i |-> i], start |-> <<[t |-> "dt", v |-> tt]>>, end |-> <<>>]
+                  : i \in {3, 4}, tt \in {"t1", "t2"} }
+         \cup { [op |-> "AddType", r |-> [c |-> "b1", i |-> 2], v |-> [t |-> "name", n |-> NameQN("prov", ProvNS, <<"Plan">>)]] }
+         \cup {a \in ActsDerive : a.op = "Unified" /\ a.h \in {"b1", "d1"}}
     [] Scenario \in {"c08", "c08b", "c08c", "c08d", "c08e"} -> ActsNewRec \cup {a \in ActsDerive : a.op = "Unified"}
     [] Scenario = "c12b" -> ActsNewRec \cup ActsDerive \cup ActsMutate \cup ActsUpdate
     [] Scenario = "c12" -> ActsNewRec \cup ActsAddRecord \cup ActsUpdate \cup ActsAddBundle
